@@ -704,3 +704,72 @@ def rule_docstring_untouched(ctx, rep: Report, rid="Q6"):
     rep.add(rid, "uses of the assembled binding text inspected", True, f"{n} whole-text operation(s)", f"{ci.mod.rel}:{fn.lineno}", nontrivial=False)
     if n < 1:
         raise AnalysisError(f"{rep.prop}/{rid}: the print() redirect rewrite was not found")
+
+
+def rule_filter_polarities(ctx, rep: Report, rid="Q5"):
+    """Polarity of the small decisions inside the overload filter and the overload counter - each of them flips the
+    documentation of a binding silently when inverted:
+    (a) a parameter is *optional* iff it has a <defval>: required = total - #(param.find('defval') is not None);
+    (b) the declared name is <declname>, and <defname> only when there is no <declname> (fallback under `is None`);
+    (c) the first request for a signature gets overload 0 and is remembered as 0; every further request gets the remembered
+        index + 1 (no overload is skipped or served twice)."""
+    prog = ctx.prog
+    ci = prog.cls("XMLDocParser")
+    ff = prog.method("XMLDocParser", "filter_member_defs")
+    loc = f"{ci.mod.rel}:{ff.lineno}"
+    # (a)
+    scopes = [ff] + [h[1] for c in ast.walk(ff) if isinstance(c, ast.Call) and isinstance(c.func, ast.Attribute) and unparse(c.func.value) == "self"
+                     for h in [prog.find_method(ci, c.func.attr)] if h is not None]
+    opt_tests = []
+    for f_ in scopes:
+        for x in ast.walk(f_):
+            if isinstance(x, ast.Compare) and len(x.ops) == 1 and isinstance(x.ops[0], (ast.Is, ast.IsNot)) and "defval" in unparse(x.left) \
+                    and isinstance(x.comparators[0], ast.Constant) and x.comparators[0].value is None:
+                # which value does the enclosing conditional count for "has a default"?
+                p_ = parent(x)
+                counted = None
+                if isinstance(p_, ast.IfExp) and p_.test is x and isinstance(p_.body, ast.Constant) and isinstance(p_.orelse, ast.Constant):
+                    counted = (p_.body.value, p_.orelse.value)
+                elif isinstance(p_, ast.comprehension):
+                    counted = (1, 0)
+                has_default_counts = None
+                if counted is not None:
+                    yes, no = counted
+                    has_default_counts = (yes > no) if isinstance(x.ops[0], ast.IsNot) else (no > yes)
+                opt_tests.append((x, has_default_counts))
+    rep.add(rid, "arity:a parameter counts as optional exactly when it has a <defval>", bool(opt_tests) and all(h is True for _, h in opt_tests),
+            f"{[(unparse(x), h) for x, h in opt_tests]}: with the test inverted the *required* parameters are subtracted, the arity filter keeps "
+            f"the wrong candidates and bindings with optional parameters get another overload's text (or none)", loc)
+    # (b)
+    fb_ok, fb_detail = False, "no fallback to <defname> found"
+    for f_ in scopes:
+        la_ = local_assignments(f_)
+        for var, sts in la_.items():
+            vals = [st for st in sts if isinstance(st, ast.Assign) and isinstance(st.value, ast.Call) and isinstance(st.value.func, ast.Attribute)
+                    and st.value.func.attr == "find" and st.value.args and isinstance(st.value.args[0], ast.Constant)]
+            tags = [st.value.args[0].value for st in vals]
+            if "declname" in tags and "defname" in tags:
+                d1 = next(st for st in vals if st.value.args[0].value == "declname")
+                d2 = next(st for st in vals if st.value.args[0].value == "defname")
+                g = [(t.replace(" ", ""), pol) for t, pol in guards_of(d2, f_, include_exits=False)]
+                fb_ok = d1.lineno < d2.lineno and not guards_of(d1, f_, include_exits=False)[-1:] == [(f"{var} is None", True)] and \
+                    g[-1:] == [(f"{var}isNone", True)]
+                fb_detail = f"{var}: declname at line {d1.lineno}, defname at line {d2.lineno} under {g[-1:]}"
+    rep.add(rid, "names:<declname> is the declared name, <defname> only replaces a missing one", fb_ok,
+            fb_detail + ": with the fallback taken when <declname> *is* present, every named parameter is looked up under <defname>, nothing "
+            "matches and all docstrings of methods with parameters come out empty", loc)
+    # (c)
+    det = prog.method("XMLDocParser", "determine_documenting_index")
+    stores = [st for st in walk_no_nested(det) if isinstance(st, (ast.Assign, ast.AugAssign)) and any(
+        isinstance(t, ast.Subscript) and unparse(t.value) == "self._memory" for t in (st.targets if isinstance(st, ast.Assign) else [st.target]))]
+    first_zero = any(isinstance(st, ast.Assign) and isinstance(st.value, ast.Constant) and st.value.value == 0 for st in stores) or \
+        any(isinstance(st, ast.Assign) and "get(" in unparse(inline_locals(det, st.value)) and ", -1) + 1" in unparse(inline_locals(det, st.value)) for st in stores)
+    step_one = any(isinstance(st, ast.AugAssign) and isinstance(st.op, ast.Add) and isinstance(st.value, ast.Constant) and st.value.value == 1 for st in stores) or \
+        any(isinstance(st, ast.Assign) and ", -1) + 1" in unparse(inline_locals(det, st.value)) for st in stores)
+    init0 = [st for st in walk_no_nested(det) if isinstance(st, ast.Assign) and isinstance(st.targets[0], ast.Name) and isinstance(st.value, ast.Constant)
+             and not isinstance(st.value.value, str)]
+    start_ok = all(st.value.value == 0 for st in init0) or not init0
+    rets = [r.value for r in walk_no_nested(det) if isinstance(r, ast.Return) and r.value is not None]
+    rep.add(rid, "overload counter:first request -> 0 (remembered as 0), each further request -> +1", first_zero and step_one and start_ok and bool(rets),
+            f"stores {[unparse(st)[:50] for st in stores]}; initial index {[unparse(st) for st in init0]}: any other start or step skips an overload or "
+            f"serves one twice", f"{ci.mod.rel}:{det.lineno}")
